@@ -171,12 +171,16 @@ type derefReport struct {
 }
 
 type nilEngine struct {
-	c       *Ctx
-	sums    map[*types.Func]*nilSummary
-	decls   map[*types.Func]*declInfo
-	reports map[string]*derefReport // key fn#kind:path
-	entry   map[string]bool         // entry-point functions: pointer parameters are sources
-	trusted map[string]bool         // "fn#param" pairs that are trusted non-nil (with reason elsewhere)
+	// nodeCollections: also treat stores of a possibly-nil *sbom.Node into a node collection
+	// (AddNode/AddRootNode argument, append to a []*Node, store into a map[...]*Node) as
+	// operations that need a fact, and single-value lookups in such maps as possibly-nil sources.
+	nodeCollections bool
+	c               *Ctx
+	sums            map[*types.Func]*nilSummary
+	decls           map[*types.Func]*declInfo
+	reports         map[string]*derefReport // key fn#kind:path
+	entry           map[string]bool         // entry-point functions: pointer parameters are sources
+	trusted         map[string]bool         // "fn#param" pairs that are trusted non-nil (with reason elsewhere)
 }
 
 func newNilEngine(c *Ctx) *nilEngine {
@@ -555,6 +559,13 @@ func (w *nilWalker) absent(e ast.Expr, depth int) (bool, string) {
 		return false, ""
 	case *ast.IndexExpr:
 		t := info.TypeOf(x)
+		if w.e.nodeCollections && isNodePtr(t) {
+			if mt := info.TypeOf(x.X); mt != nil {
+				if _, isMap := mt.Underlying().(*types.Map); isMap {
+					return true, "single-value lookup in the map " + types.ExprString(x.X) + ": a missing key yields nil"
+				}
+			}
+		}
 		if !isPtrLike(t) || !inPkgs(namedPkg(t), untrustedStructPkgs) {
 			return false, ""
 		}
@@ -776,6 +787,19 @@ func (w *nilWalker) stmt(s ast.Stmt, f *facts) (*facts, bool) {
 		}
 		for _, l := range x.Lhs {
 			w.lhs(l, f)
+		}
+		if w.e.nodeCollections && len(x.Lhs) == len(x.Rhs) {
+			for i, l := range x.Lhs {
+				ix, isIx := l.(*ast.IndexExpr)
+				if !isIx {
+					continue
+				}
+				if mt := info.TypeOf(ix.X); mt != nil {
+					if m, isMap := mt.Underlying().(*types.Map); isMap && isNodePtr(m.Elem()) {
+						w.need(x.Rhs[i], f, "storing it in the node index "+types.ExprString(ix.X)+" (whose entries end up in a node list and are dereferenced without a check)", x.Rhs[i].Pos())
+					}
+				}
+			}
 		}
 		if len(x.Lhs) == 2 && len(x.Rhs) == 1 {
 			if ix, isIx := x.Rhs[0].(*ast.IndexExpr); isIx {
@@ -1433,6 +1457,23 @@ func (w *nilWalker) call(x *ast.CallExpr, f *facts) {
 		w.expr(a, f)
 	}
 	fn, _ := typeutil.Callee(info, x).(*types.Func)
+	if w.e.nodeCollections {
+		if id, isId := x.Fun.(*ast.Ident); isId && id.Name == "append" && fn == nil && !x.Ellipsis.IsValid() && len(x.Args) > 1 {
+			if st := info.TypeOf(x.Args[0]); st != nil {
+				if sl, isSl := st.Underlying().(*types.Slice); isSl && isNodePtr(sl.Elem()) {
+					for _, a := range x.Args[1:] {
+						w.need(a, f, "appending it to the node list "+types.ExprString(x.Args[0])+" (whose elements are dereferenced without a check by indexNodes/cleanEdges)", a.Pos())
+					}
+				}
+			}
+		}
+		if fn != nil && len(x.Args) == 1 {
+			switch objName(fn) {
+			case "sbom.(*NodeList).AddNode", "sbom.(*NodeList).AddRootNode":
+				w.need(x.Args[0], f, "adding it to a node list (whose elements are dereferenced without a check by indexNodes/cleanEdges)", x.Args[0].Pos())
+			}
+		}
+	}
 	if fn == nil || fn.Pkg() == nil || !strings.HasPrefix(fn.Pkg().Path(), modPath+"/") {
 		return
 	}
@@ -1656,4 +1697,17 @@ func (w *nilWalker) tableIndex(x *ast.IndexExpr, f *facts) {
 		r.ok = false
 		r.msg = fmt.Sprintf("%s indexes the package-level table %s with %s, which is not bounded on both sides (lower bound known: %v, upper bound known: %v): an enum number outside the table, e.g. a negative one decoded from protobuf, panics with index out of range", types.ExprString(x), types.ExprString(x.X), is, lowerOK, upperOK)
 	}
+}
+
+// isNodePtr: *sbom.Node
+func isNodePtr(t types.Type) bool {
+	if t == nil {
+		return false
+	}
+	p, ok := t.Underlying().(*types.Pointer)
+	if !ok {
+		return false
+	}
+	n, ok := p.Elem().(*types.Named)
+	return ok && n.Obj().Name() == "Node" && n.Obj().Pkg() != nil && strings.HasSuffix(n.Obj().Pkg().Path(), "/pkg/sbom")
 }
